@@ -17,6 +17,8 @@ sys.path.insert(0, os.path.dirname(os.path.abspath(__file__)))
 from lib import *
 
 RULES = ["no-unreachable", "getter-return", "no-fallthrough"]
+# repairs switched on in the model = the code as it is now: fix commits A (1), B (2) and D (8); C (4) is a known finding
+DEFAULT_MASK = 11
 T_CALL = 999   # `v999();` - the statement of the second case of the switch wrapper
 
 # ----------------------------------------------------------------------------
@@ -570,7 +572,7 @@ class _Rd:
         return [f() for _ in range(self.int())]
 
 
-def model_analyze(tok_lines, mask=0):
+def model_analyze(tok_lines, mask=DEFAULT_MASK):
     """-> [{wf, panic, info: {offset: (unreachable, tag, ret, throw, inf)}, nu: [...], gr: [...], nf: [...]}]"""
     outs = run_model('cf', 'analyze', ["%d %s" % (mask, t) for t in tok_lines])
     res = []
@@ -585,7 +587,7 @@ def model_analyze(tok_lines, mask=0):
     return res
 
 
-def model_oracle(tok_lines, mask=0):
+def model_oracle(tok_lines, mask=DEFAULT_MASK):
     """-> [{wf, c10: [...], getter: 0/1, cases: [...], falls: 0/1, reach: [...]}]"""
     outs = run_model('cf', 'oracle', ["%d %s" % (mask, t) for t in tok_lines])
     res = []
@@ -596,10 +598,57 @@ def model_oracle(tok_lines, mask=0):
     return res
 
 
-def model_ghost(tok_lines, mask=0):
+def model_ghost(tok_lines, mask=DEFAULT_MASK):
     """proof layer 1 as a test: (states of anG and an equal, logged flags/case-stops = final map, body reason = map)"""
     outs = run_model('cf', 'ghost', ["%d %s" % (mask, t) for t in tok_lines])
     return [tuple(_parse_ints(o)) for o in outs]
+
+
+def model_sem(tok_lines):
+    """purely semantic facts (no analyzer): [{wf, nofn, reach: [...], falls: 0/1, fall_cases: [...]}]"""
+    outs = run_model('cf', 'sem', ["0 %s" % t for t in tok_lines])
+    res = []
+    for o in outs:
+        r = _Rd(_parse_ints(o))
+        res.append({"wf": r.int(), "nofn": r.int(), "reach": r.list(r.int), "falls": r.int(), "fall_cases": r.list(r.int)})
+    return res
+
+
+GETTER_START = 2     # offset of `get` in `({get a() {...}})`
+
+
+def impl_violations_of(prog, lint, sem):
+    """The three properties evaluated DIRECTLY on the implementation's diagnostics with the semantic facts:
+       -> list of (kind, offset)."""
+    if not lint or "ok" not in lint:
+        return []
+    out = []
+    reach = set(sem["reach"])
+    nu = [d["start"] for d in lint["ok"] if d["code"] == "no-unreachable"]
+    out += [("c10", o) for o in sorted(set(nu)) if o in reach]
+    if prog[0] == 'getter' and sem["falls"]:
+        if not any(d["code"] == "getter-return" and d["start"] == GETTER_START for d in lint["ok"]):
+            out.append(("getter", GETTER_START))
+    nf = set(d["start"] for d in lint["ok"] if d["code"] == "no-fallthrough")
+    out += [("cases", o) for o in sem["fall_cases"] if o not in nf]
+    return out
+
+
+def impl_violation_pred(kind, cls_mask=None):
+    """shrinking predicate on the IMPLEMENTATION: still well formed, the implementation still violates the
+       property `kind`, and (when given) the model with repairs `cls_mask` has no violation (stay in the class)"""
+    def pred(progs):
+        printed = [print_program(p) for p in progs]
+        toks = [x[1] for x in printed]
+        sems = model_sem(toks)
+        lints = impl_rules([x[0] for x in printed])
+        ok = [bool(sm["wf"]) and any(k == kind for k, _ in impl_violations_of(p, l, sm))
+              for p, l, sm in zip(progs, lints, sems)]
+        if cls_mask is not None:
+            res2 = model_oracle(toks, cls_mask)
+            ok = [a and not has_violation(o) for a, o in zip(ok, res2)]
+        return ok
+    return pred
 
 
 def has_violation(o):
@@ -678,8 +727,15 @@ def feature_B(body):
 
 
 def feature_C(body):
-    """a statement that starts with a function (declaration or arrow expression statement)"""
-    return any(s[0] in ('fn', 'arrow') for t in body for s in walk(t))
+    """a statement that starts with a function (declaration or arrow-expression statement) whose body can have a
+       Forced end: it contains a return, a throw or a loop (its end is recorded under the statement's own key)"""
+    for t in body:
+        for s in walk(t):
+            if s[0] in ('fn', 'arrow'):
+                fb = s[2] if s[0] == 'fn' else s[1]
+                if any(u[0] in ('ret', 'throw') + LOOPS for v in fb for u in walk_same_fn(v)):
+                    return True
+    return False
 
 
 def feature_D(body):
@@ -704,7 +760,7 @@ def model_body(prog):
     return body
 
 
-def classify_many(progs, base=0):
+def classify_many(progs, base=DEFAULT_MASK):
     """For each program with a violation on the faithful model: the smallest set of classes, e.g. "A" or "A+D",
        such that (i) the syntactic feature of each class is present in the program and (ii) switching ONLY those
        repairs on in the model removes every violation of the program; None if there is no such set (an
@@ -712,7 +768,7 @@ def classify_many(progs, base=0):
     if not progs:
         return []
     toks = [print_program(p)[1] for p in progs]
-    masks = sorted(range(1, ALL_FIXES + 1), key=lambda m: (bin(m).count("1"), m))
+    masks = sorted((m for m in range(1, ALL_FIXES + 1) if m & base == 0), key=lambda m: (bin(m).count("1"), m))
     by_mask = {m: model_oracle(toks, base | m) for m in masks}
     out = []
     for i, p in enumerate(progs):
@@ -728,8 +784,10 @@ def classify_many(progs, base=0):
     return out
 
 
-def classify_cf_violation(prog):
-    return classify_many([prog])[0]
+def classify_cf_violation(prog, base=DEFAULT_MASK):
+    """class of the violation(s) that the model with repairs `base` (default: the current code) has on `prog`:
+       "C" (or "A", "B", "D", "A+D", ... when base leaves those open) or None"""
+    return classify_many([prog], base)[0]
 
 
 # ----------------------------------------------------------------------------
@@ -876,7 +934,7 @@ def shrink(prog, pred_many, max_rounds=200):
     return cur
 
 
-def violation_pred(mask=0, kinds=("c10", "getter", "cases"), cls_mask=None):
+def violation_pred(mask=DEFAULT_MASK, kinds=("c10", "getter", "cases"), cls_mask=None):
     """still well formed, still violating (one of `kinds`) on the model with repairs `mask`, and - when given -
        not violating any more with the repairs `cls_mask` (so that shrinking stays inside the class)"""
     def pred(progs):
@@ -901,7 +959,7 @@ def constructs(prog):
     return c
 
 
-def compare_programs(progs, rng, mask=0, want_oracle=True):
+def compare_programs(progs, rng, mask=DEFAULT_MASK, want_oracle=True):
     """model (with repairs `mask`) against the implementation on a list of programs"""
     printed = [print_program(p, rng) for p in progs]
     srcs = [x[0] for x in printed]
@@ -917,6 +975,8 @@ def compare_programs(progs, rng, mask=0, want_oracle=True):
     orc = model_oracle(toks, mask) if want_oracle else None
     orc_fixed = model_oracle(toks, ALL_FIXES) if want_oracle else None
     ghost = model_ghost(toks, mask) + (model_ghost(toks, ALL_FIXES) if mask != ALL_FIXES else [])
+    sems = model_sem(toks)
+    impl_viol = [impl_violations_of(p, l, sm) for p, l, sm in zip(progs, irl, sems)]
     t4 = time.time()
     mism = []
     for gi, gr in enumerate(ghost):
@@ -953,21 +1013,21 @@ def compare_programs(progs, rng, mask=0, want_oracle=True):
         if other:
             mism.append({"kind": "unexpected diagnostic", "src": srcs[i], "codes": other})
     return {"srcs": srcs, "toks": toks, "model": ma, "impl_cf": icf, "impl_rules": irl,
-            "oracle": orc, "oracle_fixed": orc_fixed, "mismatches": mism, "stats": stats}
+            "oracle": orc, "oracle_fixed": orc_fixed, "sem": sems, "impl_viol": impl_viol, "mismatches": mism, "stats": stats}
 
 
 TIERS = {
     "smoke": {"random": 2000, "exhaustive": 3},
-    "quick": {"random": 100000, "exhaustive": 4},
+    "quick": {"random": 80000, "exhaustive": 4},
     "thorough": {"random": 1000000, "exhaustive": 5},
 }
 
 
-def compare_all(tier="quick", seed=1, mask=0, chunk=20000, shrink_limit=12, vh=None):
+def compare_all(tier="quick", seed=1, mask=DEFAULT_MASK, chunk=20000, shrink_limit=12, vh=None):
     """Model vs implementation (info map entry by entry, the three rules' diagnostics) and the C10/C11
        property oracles, on random programs (seeded) + all programs up to a small size.
-       `mask`: repairs switched on in the model (0 = faithful; use 3 against an implementation patched
-       with cf-fix-A/B; 11 with A/B/D).  `vh`: path of an alternative harness binary (a build against a
+       `mask`: repairs switched on in the model (default 11 = the current code: fix commits A, B, D; 0 = the code
+       before the fixes; 15 = with the candidate repair of the known finding C as well).  `vh`: path of an alternative harness binary (a build against a
        patched scratch copy of the repository); the property oracle then runs on the model with `mask`."""
     cfg = TIERS[tier]
     t_start = time.time()
@@ -983,7 +1043,9 @@ def compare_all(tier="quick", seed=1, mask=0, chunk=20000, shrink_limit=12, vh=N
            "sizes": {}, "constructs": {}, "wrappers": {}, "mismatches": [], "n_mismatches": 0,
            "violating_programs": 0, "violations": {"c10": 0, "c11_getter": 0, "c11_case": 0},
            "classes": {"A": 0, "B": 0, "C": 0, "D": 0, "unexplained": 0}, "unexplained": [], "examples": {},
-           "unexplained_after_repair": [], "impl_level_c10": 0, "info_entries": 0, "diags": 0, "stats": {}}
+           "unexplained_after_repair": [], "impl_level_c10": 0, "info_entries": 0, "diags": 0, "stats": {},
+           "impl_violations": {"c10": [], "getter": [], "cases": []}}
+    impl_items = []      # (prog, src, kind, offset, explained_by_model)
 
     def batches():
         ex = enum_programs(cfg["exhaustive"])
@@ -1025,6 +1087,11 @@ def compare_all(tier="quick", seed=1, mask=0, chunk=20000, shrink_limit=12, vh=N
                 res["violations"]["c11_getter"] += o["getter"]
                 res["violations"]["c11_case"] += len(o["cases"])
                 violating.append((p, r["srcs"][i], o))
+            # the properties evaluated directly on the implementation's diagnostics
+            model_items = set([("c10", x) for x in o["c10"]] + [("cases", x) for x in o["cases"]] +
+                              ([("getter", GETTER_START)] if o["getter"] else []))
+            for kind, off in r["impl_viol"][i]:
+                impl_items.append((p, r["srcs"][i], kind, off, (kind, off) in model_items))
             # implementation-level cross-check of C10: a reported statement that the semantics can enter
             b = r["impl_rules"][i]
             if b and "ok" in b:
@@ -1058,6 +1125,23 @@ def compare_all(tier="quick", seed=1, mask=0, chunk=20000, shrink_limit=12, vh=N
         for e in ex:
             uniq.setdefault(e["src"], e)
         res["examples"][key] = sorted(uniq.values(), key=lambda e: e["size"])
+    # violations of the IMPLEMENTATION (its diagnostics against the semantic facts): class from the model only when
+    # the model (= current code) has the very same violation, otherwise "unexplained"; shrinking runs the implementation
+    explained = [it for it in impl_items if it[4]]
+    icls = classify_many([it[0] for it in explained], mask) if explained else []
+    cls_of = {id(it): (c or "unexplained") for it, c in zip(explained, icls)}
+    groups = {}
+    for it in impl_items:
+        c = cls_of.get(id(it), "unexplained")
+        groups.setdefault((it[2], c), []).append(it)
+    for (kind, c), items in sorted(groups.items()):
+        items.sort(key=lambda it: prog_size(it[0]))
+        for n, it in enumerate(items):
+            minimal = None
+            if n < shrink_limit:      # only the smallest few of each (kind, class) are shrunk
+                cm = None if c == "unexplained" else (sum(MASKS[x] for x in c.split("+")) | mask)
+                minimal = print_program(shrink(it[0], impl_violation_pred(kind, cm)))[0]
+            res["impl_violations"][kind].append({"src": it[1], "offset": it[3], "class": c, "minimal": minimal})
     res["wall_s"] = round(time.time() - t_start, 1)
     return res
 
@@ -1073,9 +1157,22 @@ def summary(res):
                  (res["info_entries"], res["diags"], res["stats"].get("ghost_checks", 0), res["n_mismatches"]))
     for m in res["mismatches"][:5]:
         lines.append("    MISMATCH %s" % json.dumps({k: v for k, v in m.items() if k != "prog"})[:600])
-    lines.append("  property violations (oracle on the faithful model = implementation): %d programs; C10 %d, C11 getter %d, C11 case %d; implementation-level C10 cross-check %d" %
+    lines.append("  property violations (oracle on the model with this mask = implementation): %d programs; C10 %d, C11 getter %d, C11 case %d; implementation-level C10 cross-check %d" %
                  (res["violating_programs"], res["violations"]["c10"], res["violations"]["c11_getter"],
                   res["violations"]["c11_case"], res["impl_level_c10"]))
+    iv = res.get("impl_violations", {})
+    cnt = {}
+    for kind, items in iv.items():
+        for it in items:
+            cnt[(kind, it["class"])] = cnt.get((kind, it["class"]), 0) + 1
+    lines.append("  IMPLEMENTATION-level violations (diagnostics vs semantics): %s" %
+                 (", ".join("%s/%s: %d" % (k, c, n) for (k, c), n in sorted(cnt.items())) or "none"))
+    seen = set()
+    for kind, items in sorted(iv.items()):
+        for it in items:
+            if it["minimal"] and (kind, it["class"], it["minimal"]) not in seen and len([x for x in seen if x[0] == kind and x[1] == it["class"]]) < 3:
+                seen.add((kind, it["class"], it["minimal"]))
+                lines.append("    [impl %s, class %s] minimal: %s" % (kind, it["class"], it["minimal"].replace("\n", "\\n")))
     lines.append("  classes: %s;  violations left with all repairs on in the model: %d" %
                  (json.dumps(res["classes"], sort_keys=True), len(res["unexplained_after_repair"])))
     for key, exs in sorted(res["examples"].items()):
@@ -1091,7 +1188,8 @@ def summary(res):
 if __name__ == "__main__":
     tier = sys.argv[1] if len(sys.argv) > 1 else "quick"
     seed = int(sys.argv[2]) if len(sys.argv) > 2 else 1
-    mask = int(sys.argv[3]) if len(sys.argv) > 3 else 0
+    mask = int(sys.argv[3]) if len(sys.argv) > 3 else DEFAULT_MASK
     r = compare_all(tier, seed, mask, vh=os.environ.get("CF_VH"))
     print(summary(r))
-    sys.exit(1 if (r["n_mismatches"] or r["classes"]["unexplained"] or r["unexplained_after_repair"]) else 0)
+    bad_impl = any(it["class"] == "unexplained" for items in r["impl_violations"].values() for it in items)
+    sys.exit(1 if (r["n_mismatches"] or r["classes"]["unexplained"] or r["unexplained_after_repair"] or bad_impl) else 0)
